@@ -90,15 +90,43 @@ def impl_predicate(n, scripts, f):
                 return "at quiescence nodes %d and %d: closure says %s, structure says %s (mem %s)" % (a, b, cls[a] == cls[b], root(a) == root(b), mem)
     # sameSet = true must be justified by ALL requested unions (classes only merge, so true is sound iff in the final closure)
     ptr = [0] * len(scripts)
+    done_unions = []                 # unions whose response precedes, in the global response order
+    started_after = [0] * len(scripts)   # per thread: number of unions completed before its current operation started
     for r in f.get("resp", []):
         t, kind, val = r.split(":")
         t = int(t)
         op = scripts[t][ptr[t]]
         ptr[t] += 1
-        if kind == "s" and val == "t":
+        if kind == "s":
             a, b = int(op.split(":")[1]), int(op.split(":")[2])
-            if cls[a] != cls[b]:
+            if val == "t" and cls[a] != cls[b]:
                 return "sameSet(%d,%d) answered true although no requested union connects them" % (a, b)
+            if val == "f":
+                # false is wrong at every instant of the call if the unions that had RETURNED before the call was even
+                # invoked (= before this thread's previous response) already connect the two nodes
+                before = closure_classes(n, done_unions[: started_after[t]])
+                if before[a] == before[b]:
+                    return "sameSet(%d,%d) answered false although unions completed before the call already joined them" % (a, b)
+        if kind == "u":
+            done_unions.append((int(op.split(":")[1]), int(op.split(":")[2])))
+        started_after[t] = len(done_unions)
+    return None
+
+
+def search_failing_schedule(harness, n, scripts, rng, tries):
+    """correspondence broke on (n, scripts): look for a schedule of the same scripts on which the REAL structure violates
+    the property predicate"""
+    cases = [(n, scripts, "random %d %d" % (rng.next() % (1 << 31), rng.choice([15, 40, 70]))) for _ in range(tries)]
+    answers, _ = C.run_resumable(harness, [line_for(*c) for c in cases], timeout=600)
+    for c, a in zip(cases, answers):
+        if a is None:
+            continue
+        if a.startswith("STUCK-EXIT"):
+            return c, {"sched": a.split("sched", 1)[1].split()}, "an operation did not finish within the step budget (livelock)"
+        f = fields(a)
+        bad = impl_predicate(n, scripts, f)
+        if bad:
+            return c, f, bad
     return None
 
 
@@ -121,12 +149,24 @@ def main(pid, tier, seed, replay):
         r = rng.fork("case%d" % i)
         n, scripts = gen_case(r)
         cases.append((n, scripts, "random %d %d" % (r.next() % (1 << 31), r.choice([15, 40, 70]))))
-    rc, out, err = C.sh([harness], input="".join(line_for(*c) + "\n" for c in cases).encode(), timeout=3000)
-    ilines = out.splitlines()
-    if rc != 0 or len(ilines) != len(cases):
-        chk.violation("union-find harness died (rc=%s) after %d of %d cases: %s" % (rc, len(ilines), len(cases), err[-300:]),
-                      {"case": line_for(*cases[min(len(ilines), len(cases) - 1)])})
+    answers, crashed = C.run_resumable(harness, [line_for(*c) for c in cases], timeout=3000)
+    if crashed is not None:
+        chk.violation("union-find harness died on case %d of %d" % (crashed, len(cases)), {"case": line_for(*cases[crashed])})
+    kept, ilines, nstuck = [], [], 0
+    for c, a in zip(cases, answers):
+        if a is None:
+            continue
+        if a.startswith("STUCK-EXIT"):
+            nstuck += 1
+            if nstuck <= 4:
+                chk.finding(None, "C29 fails on the real DisjointSet: an operation never completed under the schedule (%s)" % " ".join(a.split()[1:3]),
+                            {"case": line_for(c[0], c[1], " ".join(a.split("sched", 1)[1].split())), "harness_answer": a[:600]})
+            continue
+        kept.append(c)
+        ilines.append(a)
+    cases = kept
     imp = [fields(l) for l in ilines]
+    searched = 0
     minput = "".join("fixed " + line_for(c[0], c[1], " ".join(f.get("sched", []))) + "\n" for c, f in zip(cases, imp))
     rc, mout, err = C.sh([model], input=minput.encode(), timeout=3000)
     mlines = mout.splitlines()
@@ -143,8 +183,17 @@ def main(pid, tier, seed, replay):
         if bad:
             chk.finding(None, "C29 fails on the real DisjointSet: " + bad, rep)
         elif ml.startswith("err") or f.get("resp") != m.get("resp") or f.get("mem") != m.get("mem") or m.get("mon") != ["ok"]:
-            chk.violation("real DisjointSet and model disagree under the same schedule (property predicate holds on the real results)",
-                          dict(rep, correspondence="UnionFindDefs.run_fixed vs DisjointSet under cpp/vsched.h"), no_input=True)
+            found = None
+            if searched < 6:
+                searched += 1
+                found = search_failing_schedule(harness, c[0], c[1], rng.fork("search%d" % idx), 1500 if tier == "quick" else 20000)
+            if found:
+                fc, ff, fbad = found
+                chk.finding(None, "C29 fails on the real DisjointSet (schedule found after the model and the code disagreed on these scripts): " + fbad,
+                            {"case": line_for(fc[0], fc[1], " ".join(ff.get("sched", []))), "impl": {k: " ".join(v) for k, v in ff.items() if k != "sched"}, "disagreement_that_triggered_the_search": rep})
+            else:
+                chk.violation("real DisjointSet and model disagree under the same schedule (property predicate holds on the real results; no failing schedule found for these scripts)",
+                              dict(rep, correspondence="UnionFindDefs.run_fixed vs DisjointSet under cpp/vsched.h"), no_input=True)
         if len(set(sched)) > 1 and sum(1 for s in c[1] for o in s if o.startswith("u:")) >= 2:
             distinct.add((c[0], tuple(map(tuple, c[1])), tuple(sched)))
         if len(chk.samples) < 3 and len(set(sched)) > 2:
